@@ -16,7 +16,8 @@ From Coq.Strings Require Import String.
 From Verif Require Import Base.Bytes Idl.Ast Idl.AstUtil Idl.Resolve Idl.ResolveSpec Idl.ResolveTd
      Idl.ResolveDeref Idl.ResolvePerm Idl.ResolvePermFile Idl.ResolveFacts
      Idl.ResolvableSpec Idl.ResolveComplete Idl.ResolvePath Idl.ResolveFuel Idl.ResolveFuelEnum
-     Idl.ResolvableConst Idl.ResolveCompleteConst Idl.ResolvableFacts Idl.ResolveInv Idl.ResolveConst.
+     Idl.ResolvableConst Idl.ResolveCompleteConst Idl.ResolvableFacts Idl.ResolveInv Idl.ResolveConst
+     Idl.ResolveService.
 Import ListNotations.
 Local Open Scope string_scope.
 
@@ -62,6 +63,17 @@ Theorem resolve_reference_index : forall p r,
   end.
 Proof. exact ResolveFacts.resolve_reference_index. Qed.
 Print Assumptions resolve_reference_index.
+
+(* base services (the analogue of the type theorems for `extends`): a service that extends
+   a local name extends a service of the file and records no reference; one that extends
+   pre.m records the index of the FIRST include with the prefix whose file defines a
+   service m ([spec_include is_service_kind]); no `extends` = no reference *)
+Theorem resolve_service_ref : forall p r,
+  parsed_program p = true -> resolve_program p = Ok r ->
+  forall fn f' sv, prog_file r fn = Some f' -> f_name2cat f' <> None -> In sv (f_services f') ->
+  exists f, prog_file p fn = Some f /\ sv_good p fn f sv.
+Proof. exact ResolveService.resolve_service_ref. Qed.
+Print Assumptions resolve_service_ref.
 
 (* an include is marked used exactly when something of the file refers through it *)
 Theorem used_iff : forall p r,
